@@ -24,6 +24,8 @@ enum Act {
     BadPrefix(String),
     /// LIST or DELETE with operand text; parsed range or None = must be rejected
     Range(bool, String, Option<(u32, u32)>),
+    /// LOAD of a file (name, lines: number and text, None = a bare number in the file)
+    Load(&'static str, Vec<(u16, Option<&'static str>)>),
 }
 
 struct Model {
@@ -90,6 +92,15 @@ impl Model {
             let txt = format!("{} 1-65530", word);
             acts.push((txt.clone(), Act::Range(del, txt, None)));
         }
+        // a DELETE without operands is refused wherever the statement ends (end of line, colon, ELSE)
+        for txt in ["IF 1 THEN DELETE ELSE PRINT 0", "IF 0 THEN PRINT 0 ELSE DELETE", "IF 1 THEN DELETE", "DELETE:PRINT 5", "A=1:DELETE"] {
+            acts.push((txt.to_string(), Act::Range(true, txt.to_string(), None)));
+        }
+        // files: a bare number in a file deletes the line, as at the prompt
+        let u0 = universe[0];
+        let u1 = universe[1 % universe.len()];
+        acts.push(("LOAD \"f1\"".into(), Act::Load("f1", vec![(u0, Some(TA)), (u1, Some(TB)), (u1, None), (3, None)])));
+        acts.push(("LOAD \"f2\"".into(), Act::Load("f2", vec![(u1, Some(TB)), (u0, Some(TA)), (u0, Some(TB)), (u1, None), (u1, Some(TA))])));
         Model { universe, acts, depth }
     }
 
@@ -102,6 +113,19 @@ impl Model {
                 map.remove(n);
             }
             Act::BadPrefix(_) => {}
+            Act::Load(_, lines) => {
+                map.clear();
+                for (n, t) in lines {
+                    match t {
+                        Some(t) => {
+                            map.insert(*n, *t);
+                        }
+                        None => {
+                            map.remove(n);
+                        }
+                    }
+                }
+            }
             Act::Range(del, _, r) => {
                 if *del {
                     if let Some((a, b)) = r {
@@ -119,7 +143,7 @@ impl Model {
 fn typed(a: &Act) -> &str {
     match a {
         Act::Insert(t, _, _) | Act::BadPrefix(t) | Act::Range(_, t, _) => t,
-        Act::Bare(_) => "",
+        Act::Bare(_) | Act::Load(..) => "",
     }
 }
 
@@ -141,7 +165,12 @@ impl SpaceModel for Model {
         for (i, &ai) in hist.iter().enumerate() {
             let (name, act) = &self.acts[ai];
             let before = map.clone();
-            let text = if let Act::Bare(_) = act { name.as_str() } else { typed(act) };
+            let text = if matches!(act, Act::Bare(_) | Act::Load(..)) { name.as_str() } else { typed(act) };
+            if let Act::Load(f, lines) = act {
+                let content: String = lines.iter().map(|(n, t)| match t { Some(t) => format!("{} {}\n", n, t), None => format!("{}\n", n) }).collect();
+                s.files.retain(|(n, _)| n != f);
+                s.files.push((f.to_string(), content));
+            }
             s.enter(text);
             let ev = s.take();
             self.apply_ref(&mut map, act);
@@ -161,6 +190,7 @@ impl SpaceModel for Model {
                 Act::Insert(..) => "insert",
                 Act::Bare(_) => "bare-number",
                 Act::BadPrefix(_) => "number-above-65529",
+                Act::Load(..) => "LOAD",
                 Act::Range(true, ..) => "DELETE",
                 Act::Range(false, ..) => "LIST",
             };
